@@ -250,6 +250,9 @@ func (ds *Dataset) StoreEntities(entities []*Entity) (Error error) {
 	if err != nil {
 		return err
 	}
+	if err = verifhook.Fault("store.commit"); err != nil {
+		return err
+	}
 
 	verifhook.Point("store.beforeIDCommit")
 	err = ds.store.commitIDTxn()
